@@ -21,8 +21,8 @@ OBLIGATIONS = [
     "KafVerif.C01.flush_uploads_ok_implies_both_stored",
 ]
 TECHNIQUE = ("Lean 4 proof (inductive invariant of a transition system over all interleavings, S3 fault sequences, crashes) over a hand-written model of the PartitionLog flush protocol + schedule x fault enumeration on the real broker code through gated S3/store fakes, diffed against the model + direct monitor")
-LEVEL_TEXT = ("Lean 4 theorems for EVERY reachable state (any number of producers, any interleaving of critical sections, any outcome of every segment/index upload and store update, crashes and restarts anywhere, any flush thresholds): every acknowledged batch is contained in an S3 segment object whose index object exists (ack_durable), stays so, and is served by a registered segment while the broker is up; the pre-fix code is refuted by a concrete schedule (old_violates). Model tied to the current source by replaying all small schedules and random larger ones on the real handleProduce/PartitionLog and diffing every step.")
-LEVEL_NOTE = ("Trusted: Lean kernel; the hand-written transition system `StorageLog` (one step = one l.mu critical section / one S3 or store call / one condvar wake-up; sync.Mutex, sync.Cond, errgroup and S3 put semantics assumed); the Go harness, its quiescence detection and its schedule generators (the tie sees only the schedules it runs: all schedules of 2-3 producers with bounded faults/crashes + random ones). Not covered: acks=0 / flush-off mode, int64 overflow, header lies (C02), two broker incarnations at once (C18/C19), EtcdStore.UpdateOffsets under concurrent writers (only its sequential behaviour is pinned by the repo tests).")
+LEVEL_TEXT = ("Lean 4 theorems for EVERY reachable state (any number of producers, any interleaving of critical sections, any outcome of every segment/index upload and store update, crashes and restarts anywhere, any flush thresholds): every acknowledged batch is contained in an S3 segment object whose index object exists (ack_durable), stays so, and is served by a registered segment while the broker is up; the pre-fix code is refuted by a concrete schedule (old_violates). Lower seam: for the real AWS S3 client's putObject (first PUT, EnsureBucket, one retry) and every outcome of every API call, a nil result implies the object is stored with exactly the bytes (put_ok_implies_stored, flush_uploads_ok_implies_both_stored; the shadowed-error rewrite is refuted by put_shadow_violates). Model tied to the current source by replaying all small schedules and random larger ones on the real handleProduce/PartitionLog and diffing every step.")
+LEVEL_NOTE = ("Trusted: Lean kernel; the hand-written model `StorageLogS3` of pkg/storage/s3_aws.go (tied by an exhaustive oracle sweep over the real client on a fake S3 API) and its API assumption (PutObject success = body stored); the hand-written transition system `StorageLog` (one step = one l.mu critical section / one S3 or store call / one condvar wake-up; sync.Mutex, sync.Cond, errgroup and S3 put semantics assumed); the Go harness, its quiescence detection and its schedule generators (the tie sees only the schedules it runs: all schedules of 2-3 producers with bounded faults/crashes + random ones). Not covered: acks=0 / flush-off mode, int64 overflow, header lies (C02), two broker incarnations at once (C18/C19), EtcdStore.UpdateOffsets under concurrent writers (only its sequential behaviour is pinned by the repo tests).")
 BUILDS = dict(K.BUILDS, s3=("root", "./cmd/verif_c01s3", ["C01"]))
 ASSUMPTIONS = K.ASSUMPTIONS + [
     "lower seam (real awsS3Client, pkg/storage/s3_aws.go, over a fake of its `api` interface with an outcome oracle per API call): the S3 API's "
